@@ -165,7 +165,7 @@ def run(ctx):
     proved = ctx.prove('C06', THEOREMS)
     from aiosmpplib.protocol import SubmitSm
     rng = ctx.rng
-    n = 1500 if ctx.thorough else 220
+    n = 6000 if ctx.thorough else 220
     cases = []
     for i in range(n):
         default = rng.choice(['gsm0338', 'gsm0338', 'gsm0338', 'ucs2', 'latin_1', 'ascii'])
